@@ -236,12 +236,16 @@ IsDflt(r) == \E k \in DOMAIN GR(g).dflt : GR(g).dflt[k] = r
 IsCtx(r) == \E k \in DOMAIN GR(g).ctxr : GR(g).ctxr[k] = r
 \* value-less nonterminals (nterm<no_type>): their rules' functors are called like any other, the result carries no value
 NoVal(n) == \E k \in DOMAIN GR(g).noval : GR(g).noval[k] = n
+\* terms whose value type is no_type (typed_term(t, create<no_type>{})): their functor is called, a rule functor receives
+\* a term_value<no_type> - a source point without a value
+NvTerm(t) == \E k \in DOMAIN GR(g).nvterms : GR(g).nvterms[k] = t
 Call ==                  \* the rule's functor: children's values in right-side order, exactly once
   /\ status = "run" /\ ph = "call"
   /\ LET r == red n == Len(RuleOf(r).r)
-         args == SubSeq(vals, Len(vals) - n + 1, Len(vals))
+         raw == SubSeq(vals, Len(vals) - n + 1, Len(vals))
          id == Len(nodes)
          lc(a) == IF a >= 0 /\ nodes[a + 1].k = 0 THEN <<nodes[a + 1].line, nodes[a + 1].col>> ELSE <<-1, -1>>
+         args == [i \in 1..n |-> IF raw[i] >= 0 /\ nodes[raw[i] + 1].k = 0 /\ NvTerm(nodes[raw[i] + 1].sym) THEN -2 ELSE raw[i]]
          rest == SubSeq(vals, 1, Len(vals) - n)
      IN IF IsDflt(r) /\ n = 0
         THEN nodes' = nodes /\ vals' = Append(rest, -1) /\ ev' = <<"tau">>
@@ -249,11 +253,11 @@ Call ==                  \* the rule's functor: children's values in right-side 
         THEN nodes' = nodes /\ vals' = vals /\ ev' = <<"tau">>
         ELSE /\ nodes' = Append(nodes, [k |-> IF IsDflt(r) THEN 2 ELSE 1, sym |-> IF IsDflt(r) THEN -1 ELSE r, ch |-> args, off |-> -1, len |-> -1, line |-> -1, col |-> -1])
              /\ vals' = Append(rest, IF NoVal(RuleOf(r).l) THEN -2 ELSE id)
-             /\ ev' = IF IsDflt(r) THEN <<"dcall", id, args, [i \in 1..n |-> lc(args[i])[1]], [i \in 1..n |-> lc(args[i])[2]], 0>>
+             /\ ev' = IF IsDflt(r) THEN <<"dcall", id, args, [i \in 1..n |-> lc(raw[i])[1]], [i \in 1..n |-> lc(raw[i])[2]], 0>>
                       \* C13: a functor attached with >>= receives the caller's very object (identity 1), const iff the caller's is
-                      ELSE IF IsCtx(r) THEN <<"ccall", r, id, args, [i \in 1..n |-> lc(args[i])[1]], [i \in 1..n |-> lc(args[i])[2]], 1, IF opt.cat = 2 THEN 1 ELSE 0, 0>>
+                      ELSE IF IsCtx(r) THEN <<"ccall", r, id, args, [i \in 1..n |-> lc(raw[i])[1]], [i \in 1..n |-> lc(raw[i])[2]], 1, IF opt.cat = 2 THEN 1 ELSE 0, 0>>
                       \* (last component: number of values handed over as lvalues - every value must arrive movable, i.e. 0)
-                      ELSE IF GR(g).obsC THEN <<"call", r, id, args, [i \in 1..n |-> lc(args[i])[1]], [i \in 1..n |-> lc(args[i])[2]], 0>>
+                      ELSE IF GR(g).obsC THEN <<"call", r, id, args, [i \in 1..n |-> lc(raw[i])[1]], [i \in 1..n |-> lc(raw[i])[2]], 0>>
                       ELSE <<"tau">>
   /\ ph' = "top" /\ red' = -1
   /\ UNCHANGED <<g, inp, opt, stack, sstack, it, endIt, cur, line, col, mode, status, msgs>>
